@@ -3,8 +3,12 @@ Executed by /venv/bin/python with PYTHONPATH=/repo, AIOKAFKA_NO_EXTENSIONS=1.
 stdin: {"programs": [{"id", "calls": [name...], "faults": {"<call index>": [idx, kind, code]}}]}
 stdout (last line): {"results": [...]}
 
-Calls: begin | send0 | send1 | send_offsets | commit | abort | ctx_ok | ctx_exc.
-Every call is awaited to completion (send = send() + await the returned future).
+Calls: begin | send0 | send1 | send_offsets | commit | abort | ctx_ok | ctx_exc | send0_nowait | send1_nowait.
+Every call is awaited to completion (send = send() + await the returned future), except sendK_nowait:
+send() is awaited, the delivery future it returns is kept and the next call starts at once, while the
+batch is still queued; the kept futures are awaited when the next commit / abort / context exit has
+returned (or raised), or right before any other call that is not a nowait send; their outcome is
+recorded with that call ("futs").
 A fault [idx, kind, code] hits the idx-th *faultable* request (AddPartitionsToTxn, AddOffsetsToTxn,
 TxnOffsetCommit, EndTxn, Produce — counted from 0 from the start of the call) that reaches the
 cluster during that call: kind "error" (reply carries `code`), "drop_before" (connection dies before
@@ -85,13 +89,47 @@ def run_program(pr):
         cur["on"] = True
         calls = []
         rid = 0
+        pending = {0: [], 1: []}     # futures of sendK_nowait calls nobody has awaited yet
+
+        async def await_pending(res):
+            """Await the futures of the earlier nowait sends; one outcome per partition."""
+            futs = {}
+            for part in (0, 1):
+                outs = []
+                for fu in pending[part]:
+                    try:
+                        await fu
+                        outs.append(["ok", None, None])
+                    except asyncio.CancelledError:
+                        raise
+                    except BaseException as e:  # noqa: BLE001
+                        outs.append(["exc", exc_name(e), getattr(e, "errno", None)])
+                pending[part] = []
+                if outs:
+                    futs[str(part)] = outs[0] if all(o == outs[0] for o in outs) else ["mixed", outs, None]
+            res["futs"] = futs
+
         for i, name in enumerate(pr["calls"]):
             cur["call"], cur["n"] = i, 0
             mark = len(net.trace)
             res = {"call": name}
             state_before = p._txn_manager.state.name
+            has_pending = bool(pending[0] or pending[1])
+            is_end = name in ("commit", "abort", "ctx_ok", "ctx_exc")
+            is_nowait = name.endswith("_nowait")
             try:
-                if name == "begin":
+                if has_pending and not is_end and not is_nowait:
+                    # the application awaits its outstanding send futures before doing anything else
+                    # than ending the transaction
+                    await await_pending(res)
+                if is_nowait:
+                    part = int(name[4])
+                    rid += 1
+                    res["phase"] = "call"
+                    fut = await p.send("t", b"r%d" % rid, key=b"k", partition=part)
+                    res["rid"] = rid
+                    pending[part].append(fut)
+                elif name == "begin":
                     await p.begin_transaction()
                 elif name in ("send0", "send1"):
                     part = int(name[-1])
@@ -127,6 +165,9 @@ def run_program(pr):
                 res["exc"] = exc_name(e)
                 res["errno"] = getattr(e, "errno", None)
                 res["msg"] = str(e)[:80]
+            if has_pending and is_end:
+                # ... or right after the commit / abort / context exit returned (or raised)
+                await await_pending(res)
             res["t_done"] = len(net.trace)
             # requests that reached the cluster between the start of the call and its completion
             res["requests"] = [summarize_req(e) for e in net.trace[mark:] if e["ev"] == "request"
@@ -135,7 +176,9 @@ def run_program(pr):
                               and e.get("fault")]
             # settle: anything the client still sends after the call returned
             mark2 = len(net.trace)
-            await asyncio.sleep(0.5)
+            if not (pending[0] or pending[1]):
+                # (no pause after a nowait send: the next call starts at once)
+                await asyncio.sleep(0.5)
             res["late_requests"] = [summarize_req(e) for e in net.trace[mark2:] if e["ev"] == "request"
                                     and e["api"] in OBSERVED]
             res["state_before"] = state_before
